@@ -111,6 +111,9 @@ typedef struct vnaproperty_yaml {
     void	       *vyml_error_arg;	/* argument to error function */
 } vnaproperty_yaml_t;
 
+/* _vnaproperty_free_tree: free a whole tree without allocating */
+extern void _vnaproperty_free_tree(vnaproperty_t **rootptr);
+
 /* _vnaproperty_yaml_import: import properties from a YAML document */
 extern int _vnaproperty_yaml_import(vnaproperty_yaml_t *vymlp,
 	vnaproperty_t **rootptr, void *yaml_node);
